@@ -184,10 +184,48 @@ def coq_case(c, r):
 
 
 # ------------------------------------------------------------------ property oracle (search)
+def reuse_oracle(iv, c):
+    """history: ONE slicer object sliced on two different data vectors gives, on the second, exactly what a fresh slicer gives
+    (the documented defaults -- 0 and max(data) -- are those of the data at hand, nothing is remembered from the first call)"""
+    data = np.array(c["data"], dtype=float)
+    if len(data) < 2:
+        return None
+    for second in (np.concatenate([data * 1.9 + 0.35, data]), data[: max(1, len(data) // 2)] * 0.45):
+        try:
+            s = make_slicer(iv, c, min_n_points=0, min_n_intervals=0)
+            s.slice_(data)
+        except Exception:  # noqa
+            return None
+        try:
+            got = s.slice_(second)
+        except Exception as e:  # noqa
+            got = type(e).__name__
+        try:
+            want = make_slicer(iv, c, min_n_points=0, min_n_intervals=0).slice_(second)
+        except Exception as e:  # noqa
+            want = type(e).__name__
+        if isinstance(got, str) or isinstance(want, str):
+            same = got == want if isinstance(got, str) and isinstance(want, str) else False
+        else:
+            same = (len(got[0]) == len(want[0]) and all(np.array_equal(a, b) for a, b in zip(got[0], want[0]))
+                    and np.array_equal(np.asarray(got[1], dtype=float), np.asarray(want[1], dtype=float), equal_nan=True)
+                    and [tuple(map(float, b)) for b in got[2]] == [tuple(map(float, b)) for b in want[2]])
+        if not same:
+            def brief(r):
+                return r if isinstance(r, str) else "%d intervals, boundaries %r" % (len(r[0]), [tuple(map(float, b)) for b in r[2]][:6])
+            return ({"slicer": c["kind"], "clause": "reuse"},
+                    "%s slicer used on a second data vector (max %r, after a first one with max %r) gives %s; a fresh slicer gives %s"
+                    % (c["kind"], float(np.max(second)), float(np.max(data)), brief(got), brief(want)))
+    return None
+
+
 def oracle(iv, c):
     """Returns None if the property holds on this configuration, else (signature, message)."""
     data = np.array(c["data"], dtype=float)
     n = len(data)
+    ro = reuse_oracle(iv, c)
+    if ro is not None:
+        return ro
     r0 = run_impl(iv, c, min_n_points=0, min_n_intervals=0)
     if "err" in r0:
         if c["kind"] == "ppi" and len(c["data"]) < c["n_points"]:
